@@ -155,8 +155,31 @@ def generate():
     return "\n".join(L) + "\n"
 
 
+def source_key():
+    """content hash of everything the generated text depends on: every file under /repo/src and the dump programs"""
+    h = hashlib.sha256()
+    files = []
+    for d, _, fs in os.walk(os.path.join(REPO, "src")):
+        files += [os.path.join(d, f) for f in fs]
+    files += [os.path.join(ROOT, "harness", f) for f in os.listdir(os.path.join(ROOT, "harness")) if f.startswith("dump_")]
+    files.append(os.path.abspath(__file__))
+    for f in sorted(files):
+        h.update(f.encode()); h.update(open(f, "rb").read())
+    return h.hexdigest()[:24]
+
+
 def main():
-    text = generate()
+    # the translation is a function of the source: the text is cached under the content hash of /repo/src and of the dump programs
+    os.makedirs(CACHE, exist_ok=True)
+    cached = os.path.join(CACHE, "gen_tables.%s.lean" % source_key())
+    if os.path.exists(cached) and "--no-cache" not in sys.argv:
+        text = open(cached).read()
+    else:
+        text = generate()
+        tmp = cached + ".%d" % os.getpid()
+        with open(tmp, "w") as f:
+            f.write(text)
+        os.replace(tmp, cached)
     os.makedirs(os.path.dirname(OUT), exist_ok=True)
     old = open(OUT).read() if os.path.exists(OUT) else None
     changed = old != text
